@@ -154,3 +154,14 @@ Fixpoint ofold {A B} (f : A -> B -> outcome A) (l : list B) (a : A) : outcome A 
 (* v[i].push(x) on a local array of vectors *)
 Definition push_at {A} (l : list (list A)) (i : N) (x : A) : outcome (list (list A)) :=
   let! li := idx l i in Val (setN l i (li ++ [x])).
+
+(* v.resize_with(n, Default::default): truncated or padded with the default element *)
+Definition resize_with {A} (l : list A) (n : N) (d : A) : list A :=
+  if n <=? len l then firstnN n l else l ++ repeat d (N.to_nat (n - len l)).
+
+(* for x in &mut l { body }: every element replaced by its value after the body *)
+Fixpoint omap {A} (f : A -> outcome A) (l : list A) : outcome (list A) :=
+  match l with
+  | [] => Val []
+  | x :: l' => let! y := f x in let! r := omap f l' in Val (y :: r)
+  end.
